@@ -25,15 +25,15 @@
     directions and charge tables that agree on the charges both list).  This is the form that
     applies INSIDE a chain of contractions, where an operand is the (pruned) result of an earlier
     contraction — the first step towards S7 in fused / auto mode.
-  * `tdotF_assoc_any_mode_stored`: S7 (associativity, chains and triangles) with ALL FOUR calls in
-    fused / auto mode, in terms of the stored data: success, same labels, charge, symmetry, kind;
-    both results store every sector of the blockwise result with the blockwise values (hence equal
-    to each other), every other stored block is identically zero.
-  NOT covered: S7 for fused / auto mode in the `FreeAddr` form of C04d (see the comment there);
-  `tensordot_fuse_commute`.
+  * `tdotF_assoc_any_mode`: S7 (associativity, chains and triangles, the statement of
+    `C04.tdotF_assoc_labels`) with ALL FOUR calls in fused / auto mode: success, same labels,
+    charge, symmetry, kind, and the same value at every `FreeAddr` address.
+    `tdotF_assoc_any_mode_stored`: the same in terms of the stored data — both results store every
+    sector of the blockwise result with the blockwise values, every other stored block is zero.
+  NOT covered: `tensordot_fuse_commute`.
 -/
 import SymmModel.Props.C06All2
-import SymmModel.Proofs.TdotFusedS3
+import SymmModel.Proofs.TdotFusedS4
 import SymmModel.Props.C04d
 
 namespace SymmModel.C06
@@ -337,17 +337,11 @@ theorem tensordotF_refines_graded_any_mode_weak [AddCommMonoid R] [Mul R] [Neg R
 /-! ## S7 (associativity) with all four calls in fused / auto mode -/
 
 /-
-  FULL statement aimed at (NOT proved in this form): the statement of `C04.tdotF_assoc_labels` with
-  `.blockwise` replaced by `mode` in all four calls and "same value at every `FreeAddr` address".
-  PROVED below, in terms of the STORED data (`tdotF_assoc_any_mode_stored`): all four fused / auto
-  calls succeed; the results `c1m = (A·B)·C`, `c2m = A·(B·C)` have the same labels, charge,
-  symmetry and kind; with `c1b` the blockwise result of route 1 (whose sectors, index tables and
-  values are characterised by `C04.tdotF_assoc_labels`): both `c1m` and `c2m` store every sector of
-  `c1b`, on the box of such a block `c2m = c1m = c1b`, and every other block either of them stores
-  is identically zero (on its own box).  So the two routes agree as tensors.
-  MISSING for the `FreeAddr` form: that for an EXTRA (all-zero) block the box given by the original
-  operands' tables is the block's own box (geometry lemmas `Assoc2P.idxL / idxR` for a
-  `TdotP.InterW` intermediate instead of `AssocP.Inter`).
+  Two forms.  `tdotF_assoc_any_mode_stored` (stored data): with `c1b` the blockwise result of
+  route 1 (whose sectors, index tables and values are characterised by `C04.tdotF_assoc_labels`),
+  both fused / auto results store every sector of `c1b`, on the box of such a block
+  `c2m = c1m = c1b`, and every other block either of them stores is identically zero.
+  `tdotF_assoc_any_mode` (below it): the `FreeAddr` form of C04d.
 -/
 
 /-- **tdotF_assoc_any_mode_stored.** -/
@@ -379,52 +373,81 @@ theorem tdotF_assoc_any_mode_stored [AddCommMonoid R] [Mul R] [Neg R] [SignRing 
           c2m.elem s o = c1m.elem s o ∧ c1m.elem s o = c1b.elem s o)
       ∧ (∀ s, s ∉ c1b.sectors → ∀ o, OwnBox c1m s o → c1m.elem s o = 0)
       ∧ (∀ s, s ∉ c1b.sectors → ∀ o, OwnBox c2m s o → c2m.elem s o = 0) := by
-  obtain ⟨ABb, BCb, c1b, c2b, d1, d2, d3, d4, r1, r2, r3, r4, _⟩ :=
-    C04.tdotF_assoc_labels A B C xa1 xa3 xb1 xb2 xc2 xc3 hA hB hC hfA hfB hfC h1 h2 h3 hnA hnB hnC
-      hltA hltC hL
-  obtain ⟨_, _, hidx, hsecb, hat, _⟩ := C04.tdotF_assoc_at A B C ABb BCb c1b c2b xa1 xa3 xb1 xb2 xc2 xc3
-    hA hB hC hfA hfB hfC h1 h2 h3 hnA hnB hnC hltA hltC hL d1 d2 d3 d4
-  have hAB := Adm.of hA hB hfA hfB h1
-  have hBC := Adm.of hB hC hfB hfC h2
-  have T : Assoc2P.Tri A B C xa1 xa3 xb1 xb2 xc2 xc3 :=
-    ⟨hAB, hBC,
-      Mid.of hnA (by
-        intro i hi
-        rcases List.mem_append.mp hi with h | h
-        · exact hAB.ltA i h
-        · exact hltA i h),
-      Mid.of hnB (by
-        intro i hi
-        rcases List.mem_append.mp hi with h | h
-        · exact hAB.ltB i h
-        · exact hBC.ltA i h),
-      Mid.of hnC (by
-        intro i hi
-        rcases List.mem_append.mp hi with h | h
-        · exact hBC.ltB i h
-        · exact hltC i h), h3⟩
-  obtain ⟨ABm, e1⟩ := call_exists hz1 hz2 A B xa1 xb1 hAB mode hmode ABb d1
-  obtain ⟨BCm, e3⟩ := call_exists hz1 hz2 B C xb2 xc2 hBC mode hmode BCb d3
-  obtain ⟨ABb', d1', pAB, IABm, IABb, oAB, cAB, _, _, _⟩ :=
-    first_call hz1 hz2 A B xa1 xb1 hA hB hfA hfB h1 mode hmode ABm e1
-  rw [d1] at d1'
-  obtain rfl := Except.ok.inj d1'
-  obtain ⟨BCb', d3', pBC, IBCm, IBCb, oBC, cBC, _, _, _⟩ :=
-    first_call hz1 hz2 B C xb2 xc2 hB hC hfB hfC h2 mode hmode BCm e3
-  rw [d3] at d3'
-  obtain rfl := Except.ok.inj d3'
-  obtain ⟨c1m, e2, l1, l2, l3, l4, _, lsec, lst, lz⟩ := second_left hz1 hz2 pAB (admW_left_tri IABm T)
-    (admW_left_tri IABb T) oAB cAB mode hmode c1b d2
-  obtain ⟨c2m, e4, m1, m2, m3, m4, _, msec, mst, mz⟩ := second_right hz1 hz2 pBC (admW_right_tri IBCm T)
-    (admW_right_tri IBCb T) oBC cBC mode hmode c2b d4
-  refine ⟨ABm, BCm, c1m, c2m, ABb, c1b, e1, e2, e3, e4, d1, d2,
-    by rw [m1, l1, r1], by rw [m2, l2, r2], by rw [m3, l3, r3], by rw [m4, l4, r4], l1, l2,
-    fun s hs => ⟨lsec s hs, msec s ((hsecb s).mpr hs)⟩, ?_, lz,
-    fun s hs o ho => mz s (fun h => hs ((hsecb s).mp h)) o ho⟩
-  intro s hs o ho
-  have h1' := lst s hs o ho
-  have h2' := mst s ((hsecb s).mpr hs) o (by rw [hidx]; exact ho)
-  exact ⟨by rw [h2', h1']; exact hat s o (fun _ => ho), h1'⟩
+  obtain ⟨ABm, BCm, c1m, c2m, ABb, c1b, K⟩ := assoc_core hz1 hz2 A B C xa1 xa3 xb1 xb2 xc2 xc3
+    hA hB hC hfA hfB hfC h1 h2 h3 hnA hnB hnC hltA hltC hL mode hmode
+  exact ⟨ABm, BCm, c1m, c2m, ABb, c1b, K.call1, K.call2, K.call3, K.call4, K.callb1, K.callb2,
+    K.oddpos, K.charge, K.sym, K.fermi, K.oddb, K.chargeb, K.secs, K.stored, K.zero1, K.zero2⟩
+
+/-- **S7 tdotF_assoc_any_mode** — the statement of `C04.tdotF_assoc_labels` (chains and
+    triangles, any labels satisfying `LabelRoutes`, in particular pairwise-distinct labels) with
+    ALL FOUR calls in `mode = fused` or `auto`: the calls succeed and `c1m = (A·B)·C`,
+    `c2m = A·(B·C)` have the same labels, charge, symmetry, kind and the same value at every
+    address `(LA ++ LM ++ LC, oA ++ oM ++ oC)` of the original operands' tables (`FreeAddr`).
+    (The sector LISTS and pruned index tables of the two results are not claimed equal: fused-mode
+    results may store additional all-zero blocks — `tdotF_assoc_any_mode_stored`.) -/
+theorem tdotF_assoc_any_mode [AddCommMonoid R] [Mul R] [Neg R] [SignRing R] [AssocLaws R]
+    (hz1 : ∀ x : R, 0 * x = 0) (hz2 : ∀ x : R, x * 0 = 0)
+    (A B C : Arr R) (xa1 xa3 xb1 xb2 xc2 xc3 : List Nat)
+    (hA : A.validB = true) (hB : B.validB = true) (hC : C.validB = true)
+    (hfA : A.fermi = true) (hfB : B.fermi = true) (hfC : C.fermi = true)
+    (h1 : ValidP.tdotAdmissibleB A B xa1 xb1 = true) (h2 : ValidP.tdotAdmissibleB B C xb2 xc2 = true)
+    (h3 : ValidP.contractibleB A C xa3 xc3 = true)
+    (hnA : (xa1 ++ xa3).Nodup) (hnB : (xb1 ++ xb2).Nodup) (hnC : (xc2 ++ xc3).Nodup)
+    (hltA : ∀ i ∈ xa3, i < A.ndim) (hltC : ∀ i ∈ xc3, i < C.ndim)
+    (hL : Assoc2P.LabelRoutes A.parity B.parity A.oddpos B.oddpos C.oddpos)
+    (mode : TdotMode) (hmode : mode = .fused ∨ mode = .auto) :
+    ∃ ABm BCm c1m c2m : Arr R,
+      A.tensordotF B (.pair (xa1.map Int.ofNat) (xb1.map Int.ofNat)) mode = .ok ABm
+      ∧ ABm.tensordotF C (.pair ((Assoc2P.axesAB A.ndim B.ndim xa1 xa3 xb1 xb2).map Int.ofNat)
+          ((xc3 ++ xc2).map Int.ofNat)) mode = .ok c1m
+      ∧ B.tensordotF C (.pair (xb2.map Int.ofNat) (xc2.map Int.ofNat)) mode = .ok BCm
+      ∧ A.tensordotF BCm (.pair ((xa1 ++ xa3).map Int.ofNat)
+          ((Assoc2P.axesBC B.ndim C.ndim xb1 xb2 xc2 xc3).map Int.ofNat)) mode = .ok c2m
+      ∧ c2m.oddpos = c1m.oddpos ∧ c2m.charge = c1m.charge ∧ c2m.sym = c1m.sym ∧ c2m.fermi = c1m.fermi
+      ∧ ∀ (LA LM LC : Sector) (oA oM oC : List Nat),
+          Assoc2P.FreeAddr A B C xa1 xa3 xb1 xb2 xc2 xc3 LA LM LC oA oM oC →
+          c2m.elem (LA ++ LM ++ LC) (oA ++ oM ++ oC) = c1m.elem (LA ++ LM ++ LC) (oA ++ oM ++ oC) := by
+  obtain ⟨ABm, BCm, c1m, c2m, ABb, c1b, K⟩ := assoc_core hz1 hz2 A B C xa1 xa3 xb1 xb2 xc2 xc3
+    hA hB hC hfA hfB hfC h1 h2 h3 hnA hnB hnC hltA hltC hL mode hmode
+  refine ⟨ABm, BCm, c1m, c2m, K.call1, K.call2, K.call3, K.call4, K.oddpos, K.charge, K.sym, K.fermi, ?_⟩
+  intro LA LM LC oA oM oC fa
+  by_cases hs : (LA ++ LM ++ LC) ∈ c1b.sectors
+  · obtain ⟨t, ht⟩ := (K.secb _).mp hs
+    obtain ⟨shp, hshp⟩ := triple_shape (Arr.shapesOk_of_validB hA) (Arr.shapesOk_of_validB hB)
+      (Arr.shapesOk_of_validB hC) ht
+    have ho : inBox (Arr.blockShapeD c1b.indices (LA ++ LM ++ LC)) (oA ++ oM ++ oC) = true := by
+      rw [K.idxb, Arr.blockShapeD, ValidP.dropUnused_blockShape _ _ _ hs, hshp]
+      exact freeAddr_inBox fa hshp
+    exact (K.stored _ hs _ ho).1
+  · rw [K.zero1 _ hs _ (fun V hl => freeAddr_inBox fa (K.shape1 _ V hl)),
+      K.zero2 _ hs _ (fun V hl => freeAddr_inBox fa (K.shape2 _ V hl))]
+
+/-- **S7 for pairwise-distinct labels** (the scope of C04, statement of `C04.tdotF_assoc`) with
+    all four calls in fused / auto mode -/
+theorem tdotF_assoc_any_mode_distinct [AddCommMonoid R] [Mul R] [Neg R] [SignRing R] [AssocLaws R]
+    (hz1 : ∀ x : R, 0 * x = 0) (hz2 : ∀ x : R, x * 0 = 0)
+    (A B C : Arr R) (xa1 xa3 xb1 xb2 xc2 xc3 : List Nat)
+    (hA : A.validB = true) (hB : B.validB = true) (hC : C.validB = true)
+    (hfA : A.fermi = true) (hfB : B.fermi = true) (hfC : C.fermi = true)
+    (h1 : ValidP.tdotAdmissibleB A B xa1 xb1 = true) (h2 : ValidP.tdotAdmissibleB B C xb2 xc2 = true)
+    (h3 : ValidP.contractibleB A C xa3 xc3 = true)
+    (hnA : (xa1 ++ xa3).Nodup) (hnB : (xb1 ++ xb2).Nodup) (hnC : (xc2 ++ xc3).Nodup)
+    (hltA : ∀ i ∈ xa3, i < A.ndim) (hltC : ∀ i ∈ xc3, i < C.ndim)
+    (hd : (A.oddpos ++ B.oddpos ++ C.oddpos).Pairwise (fun x y => x.1 ≠ y.1))
+    (mode : TdotMode) (hmode : mode = .fused ∨ mode = .auto) :
+    ∃ ABm BCm c1m c2m : Arr R,
+      A.tensordotF B (.pair (xa1.map Int.ofNat) (xb1.map Int.ofNat)) mode = .ok ABm
+      ∧ ABm.tensordotF C (.pair ((Assoc2P.axesAB A.ndim B.ndim xa1 xa3 xb1 xb2).map Int.ofNat)
+          ((xc3 ++ xc2).map Int.ofNat)) mode = .ok c1m
+      ∧ B.tensordotF C (.pair (xb2.map Int.ofNat) (xc2.map Int.ofNat)) mode = .ok BCm
+      ∧ A.tensordotF BCm (.pair ((xa1 ++ xa3).map Int.ofNat)
+          ((Assoc2P.axesBC B.ndim C.ndim xb1 xb2 xc2 xc3).map Int.ofNat)) mode = .ok c2m
+      ∧ c2m.oddpos = c1m.oddpos ∧ c2m.charge = c1m.charge ∧ c2m.sym = c1m.sym ∧ c2m.fermi = c1m.fermi
+      ∧ ∀ (LA LM LC : Sector) (oA oM oC : List Nat),
+          Assoc2P.FreeAddr A B C xa1 xa3 xb1 xb2 xc2 xc3 LA LM LC oA oM oC →
+          c2m.elem (LA ++ LM ++ LC) (oA ++ oM ++ oC) = c1m.elem (LA ++ LM ++ LC) (oA ++ oM ++ oC) :=
+  tdotF_assoc_any_mode hz1 hz2 A B C xa1 xa3 xb1 xb2 xc2 xc3 hA hB hC hfA hfB hfC h1 h2 h3 hnA hnB hnC
+    hltA hltC (C04.labelRoutes_of_distinct _ _ _ _ _ hd) mode hmode
 
 /-! ### non-vacuity and sanity -/
 
